@@ -1,6 +1,7 @@
 (* C18 - message listing is one total order; pages partition it; out-of-range limits are refused.
    ONLY statements (storage contract level; the last-message pointer invariant of the engine is in Props/C18e.v). *)
-From MDK Require Import Base.Prelude Base.AMap Store.Contract Store.ContractSpec Store.ContractProofs Store.SqlTie.
+From Coq Require Import Permutation.
+From MDK Require Import Base.Prelude Base.AMap Store.Contract Store.ContractSpec Store.ContractProofs Store.PtrProofs Store.SqlTie.
 
 (* the sort key order is a strict total order *)
 Theorem C18_order_irreflexive : forall a, ~ key_gt a a.
@@ -57,3 +58,40 @@ Print Assumptions C18_last_is_head.
 Theorem C18_sql_order_tied : sql_tie_statement.
 Proof. exact sql_tie. Qed.
 Print Assumptions C18_sql_order_tied.
+
+(* ---------------------------------------------------------------- the cached last-message pointer (storage level) *)
+(* the pointer maintained message by message (from an empty pointer, in ANY arrival order, duplicates allowed) is the display
+   key of the head of the listing: the two can never disagree *)
+Theorem C18_pointer_is_head : forall (m0 : msg) (l : list msg),
+  fold_left upd_ptr (m0 :: l) (None, None, None) = ptr_of (hd m0 (sort_desc display_key (m0 :: l))).
+Proof. exact ptr_is_head. Qed.
+Print Assumptions C18_pointer_is_head.
+
+(* one step: the pointer moves exactly when the new message sorts strictly before (is displayed above) the current one *)
+Theorem C18_pointer_step : forall m m',
+  upd_ptr (ptr_of m) m' = if key3_gtb (display_key m') (display_key m) then ptr_of m' else ptr_of m.
+Proof. exact ptr_step. Qed.
+Print Assumptions C18_pointer_step.
+
+(* arrival order is irrelevant *)
+Theorem C18_pointer_order_irrelevant : forall (l l' : list msg), Permutation l l' ->
+  fold_left upd_ptr l (None, None, None) = fold_left upd_ptr l' (None, None, None).
+Proof. exact ptr_order_irrelevant. Qed.
+Print Assumptions C18_pointer_order_irrelevant.
+
+(* the pointer always names a message of the list *)
+Theorem C18_pointer_names_member : forall (m0 : msg) (l : list msg),
+  exists m, In m (m0 :: l) /\ fold_left upd_ptr (m0 :: l) (None, None, None) = ptr_of m.
+Proof. exact ptr_names_member. Qed.
+Print Assumptions C18_pointer_names_member.
+
+(* four messages; ids 7, 9, 4 tie on created_at (50); 7 and 9 also tie on processed_at (60): the id breaks the tie.
+   Pointer after forward arrival, pointer after reverse arrival, ids of the listing. *)
+Example C18_pointer_example :
+  let m id created processed := mkMsg id 1 0 9 created processed 0 0 0 None 0 in
+  let l := [m 7 50 60; m 3 40 99; m 9 50 60; m 4 50 55] in
+  (fold_left upd_ptr l (None, None, None), fold_left upd_ptr (rev l) (None, None, None),
+   map m_id (sort_desc display_key l))
+  = ((Some 50, Some 60, Some 9), (Some 50, Some 60, Some 9), [9; 7; 4; 3]).
+Proof. vm_compute; reflexivity. Qed.
+Print Assumptions C18_pointer_example.
